@@ -6,7 +6,7 @@ From Coq Require Import List ZArith Bool Permutation.
 From GZ Require Import Lib.RollingWindow Lib.RollingWindowSpec Lib.RollingWindowProofs.
 From GZ Require Import C16.Model C16.ProofsMap C16.ProofsSeq C16.ProofsCache C16.ProofsCacheLru.
 From GZ Require Import C16.ModelW C16.ProofsW C16.ProofsWClamp.
-From GZ Require Import C16.Lin C16.ProofsLin C16.Check C16.ProofsExtra C16.ProofsRefW.
+From GZ Require Import C16.Lin C16.ProofsLin C16.Check C16.ProofsExtra C16.ProofsRefW C16.ProofsHold.
 Import ListNotations.
 Open Scope Z_scope.
 
@@ -402,7 +402,7 @@ Proof. vm_compute. reflexivity. Qed.
    LRU order and limit together, for all limits, wheel sizes, intervals and histories. *)
 Theorem cachew_refines_stamp_reference : forall limit n i ops, 1 <= n -> 1 <= i ->
   forallb xx_in_scope ops = true ->
-  cwx_run (cw_new limit n i false) ops = refwx_run i (mkRefW (s_new limit) []) ops.
+  cwx_run (cw_new limit n i false) [] ops = refwx_run i (mkRefW (s_new limit) []) ops.
 Proof. exact cachew_refines_stamp_reference_proof. Qed.
 Print Assumptions cachew_refines_stamp_reference.
 
@@ -415,6 +415,29 @@ Example ex_refw :
   refwx_run 1000 (mkRefW (s_new 1) []) ops =
     [OUnit; OUnit; OList [2]; OUnit; OUnit; OOpt (Some 21); OUnit; OList []; ONum 0].
 Proof. vm_compute. split; reflexivity. Qed.
+
+(* Expiry callbacks that run later than their tick (the wheel starts them on a goroutine of
+   their own after removing the fired timers; Check.XTickHold / XRelease, forced by a gate in
+   front of the callback).  For every history in which each held tick is released before the
+   next operation, holding changes nothing - the run is the run with plain ticks - and the
+   composed model answers as the reference.  With a write of the fired key between the tick and
+   its callback the two differ: Pinned.cache_stale_expiry_callback_refuted (a finding). *)
+Theorem held_ticks_released_at_once_are_ticks : forall ops s, immediate ops = true ->
+  cwx_run s [] ops = cwx_run s [] (collapse ops).
+Proof. exact held_ticks_released_at_once_are_ticks_proof. Qed.
+Print Assumptions held_ticks_released_at_once_are_ticks.
+
+Theorem cachew_with_prompt_callbacks_refines_reference : forall limit n i ops, 1 <= n -> 1 <= i ->
+  immediate ops = true -> forallb xx_in_scope_held ops = true ->
+  cwx_run (cw_new limit n i false) [] ops = refwx_run i (mkRefW (s_new limit) []) ops.
+Proof. exact cachew_with_prompt_callbacks_refines_reference_proof. Qed.
+Print Assumptions cachew_with_prompt_callbacks_refines_reference.
+
+Example ex_held_tick :
+  let ops := [XX (XSet 1 10 1500); XTickHold; XRelease; XX (XGet 1); XX (XSet 1 11 1500); XX (XGet 1)] in
+  immediate ops = true /\ forallb xx_in_scope_held ops = true /\
+  cwx_run (cw_new 0 300 1000 false) [] ops = [OUnit; OUnit; OUnit; OOpt None; OUnit; OOpt (Some 11)].
+Proof. vm_compute. repeat split. Qed.
 
 (* ------------------------------------------------------------------ *)
 (* Concurrent use (Lin.v).  The theorems above are about sequences of operations; the
